@@ -4,8 +4,8 @@ SPEC = {
     'coq_dir': 'C14',
     'claimed': False,
     'theorems': [
-        'C14_del_after_add_obs_id_partial', 'C14_del_after_add_refuted', 'C14_queries_invariant',
-        'C14_del_after_add_queries_partial', 'C14_index_entries_exact', 'C14_addr_counts_restored',
+        'C14_del_after_add_obs_id', 'C14_failed_transfer_no_local_effect', 'C14_queries_invariant',
+        'C14_del_after_add_queries', 'C14_index_entries_exact', 'C14_addr_counts_restored',
         'C14_hyps_satisfiable', 'C14_del_total_without_mvcc',
     ],
     'allowed_axioms': [],
@@ -28,8 +28,8 @@ SPEC = {
             'final dump = normalised base dump, answers before = answers after). mvcc stream: executor.AddMVCC / '
             'executor.DelMVCC called directly on a KVDB for 1-4 versions (keys that are prefixes of one another, nil values), '
             'returned KV lists applied with the AddTxs/DelTxs rule, versions removed last-first. kinds are prefixed '
-            'guarded/unguarded by the theorem\'s guard (every coins transaction with a local effect has receipt ExecOk); '
-            'two fixed witness runs (failed self-transfer, successful transfer) come first. non-trivial = the removed blocks '
+            'allok/failed by whether every coins transaction with a local effect has receipt ExecOk (checked against the '
+            'case on the Coq side); two fixed witness runs (failed self-transfer, successful transfer) come first. non-trivial = the removed blocks '
             'hold at least 2 transactions (mvcc: at least one state write); distinct = distinct Gallina case terms',
     'trusted_base': [
         'values are tagged records: the protobuf encoding is not modelled; the harness decodes each stored value by its key '
@@ -52,19 +52,17 @@ SPEC = {
         'the block\'s index entries are new (fresh transaction hashes and 8-byte short hashes, positions, block hash, '
         'mvcc version): the boolean predicate `fresh`',
         'counter keys of the local DB hold counters (`counters_wf`)',
-        'the partial theorem\'s guard `all_local_ok`: every coins transfer / transfer-to-exec / withdraw in the block has '
-        'receipt ExecOk (otherwise known finding 1)',
         'the removal list is produced (exec_del = Some): always the case without mvcc (proved), with mvcc when DelMVCC '
         'accepts (top version, matching hash)',
     ],
     'manifest': {
-        'level_text': 'partial: unbounded Coq theorem for every plugin configuration, every local DB and every fresh block '
-                      '(remove after connect restores the local DB up to explicit-zero counters and mvcc version key lists, '
-                      'which no modelled query can see; hence every query answer is restored) under the guard that no coins '
-                      'transaction with a local effect failed; refuted without the guard (known finding 1: failed coins '
-                      'transfers stay in the receiver total), reproduced on the node. The Go code agrees with the model on '
-                      'every dump of every generated run. Without the guard: every index entry proper and every address '
-                      'counter is still restored exactly (proved); only the coins receiver total is affected',
+        'level_text': 'full: unbounded Coq theorem for every plugin configuration, every local DB and every fresh block, '
+                      'whatever the receipts are (remove after connect restores the local DB up to explicit-zero counters '
+                      'and mvcc version key lists, which no modelled query can see; hence every query answer is restored); '
+                      'every index entry proper and every address counter is restored exactly. The Go code agrees with '
+                      'the model on every dump of every generated run, failed coins transactions included (finding 1, '
+                      'failed coins transfers staying in the receiver total, is fixed: Coins.ExecLocal skips failed '
+                      'transactions like ExecDelLocal does)',
         'level_note': 'KV level with tagged values (protobuf not modelled); tx/addr/hash fields are inputs; LocalDB cache by '
                       'its Get semantics; exec-level mvcc driven directly because it cannot run on a node on this tree; '
                       'manage Apply/Approve tables not modelled',
